@@ -1290,3 +1290,45 @@ R.mutant("r4-value-read-in-helper-ignores-incoming", CMP, chain(
         "        if compiled_bind.callable:\n            return src.effective_value\n        return src.value\n\n"
         "    @util.memoized_instancemethod\n    def _get_set_input_sizes_lookup(self):\n"),
 ), "C02-R4")
+
+# C02-R5: the collectors are recognised through local aliases, early returns and a private "collect if enabled" helper
+_ATP_OLD = "        if item._params:\n            self._collected_params = item._params | self._collected_params\n"
+R.mutant("benign-r5-add-to-params-early-return", CMP, sub(
+    _ATP_OLD, "        if not item._params:\n            return\n        self._collected_params = item._params | self._collected_params\n"), None)
+R.mutant("benign-r5-add-to-params-local-aliases", CMP, sub(
+    _ATP_OLD, "        outer = item._params\n        if outer:\n            collected = self._collected_params\n"
+              "            self._collected_params = outer | collected\n"), None)
+R.mutant("r5-add-to-params-local-aliases-inner-wins", CMP, sub(
+    _ATP_OLD, "        outer = item._params\n        if outer:\n            collected = self._collected_params\n"
+              "            self._collected_params = collected | outer\n"), "C02-R5")
+R.mutant("benign-r5-visit-params-early-return-split-store", "sql/cache_key.py", sub(
+    "        if obj:\n            if CacheConst.PARAMS in anon_map:\n                to_set = anon_map[CacheConst.PARAMS] | obj\n"
+    "            else:\n                to_set = obj\n            anon_map[CacheConst.PARAMS] = to_set\n        return ()\n",
+    "        if not obj:\n            return ()\n        if CacheConst.PARAMS not in anon_map:\n            anon_map[CacheConst.PARAMS] = obj\n"
+    "        else:\n            anon_map[CacheConst.PARAMS] = anon_map[CacheConst.PARAMS] | obj\n        return ()\n"), None)
+R.mutant("benign-r5-visited-statement-through-alias", CMP, sub(
+    "        if self._collect_params:\n            self._add_to_params(cs)\n        toplevel = not self.stack\n",
+    "        compound = cs\n        if self._collect_params:\n            self._add_to_params(compound)\n        toplevel = not self.stack\n"), None)
+
+
+def _collect_via_helper(helper_body):
+    import re
+
+    def edit(src):
+        out, n = re.subn(r"( +)if self\._collect_params:\n +self\._add_to_params\((\w+)\)\n",
+                         lambda m: f"{m.group(1)}self._maybe_collect({m.group(2)})\n", src)
+        if n < 5:
+            from ..report import MutantNotApplicable
+            raise MutantNotApplicable(f"only {n} `if self._collect_params: self._add_to_params(x)` sites")
+        return sub("    def _add_to_params(self, item: ExecutableStatement) -> None:\n",
+                   "    def _maybe_collect(self, stmt):\n" + helper_body + "\n    def _add_to_params(self, item: ExecutableStatement) -> None:\n")(out)
+    return edit
+
+
+R.mutant("benign-r5-visits-collect-through-private-helper", CMP, _collect_via_helper(
+    "        if self._collect_params:\n            self._add_to_params(stmt)\n"), None)
+# the FromStatement repair is part of the tree now (the benign mutant above no longer applies): undoing it must fire
+R.mutant("fromstatement-stops-collecting-params", "orm/context.py", sub(
+    "        if compiler._collect_params:\n            compiler._add_to_params(self)\n\n"
+    "        compile_state = self._compile_state_factory(self, compiler, **kw)\n",
+    "        compile_state = self._compile_state_factory(self, compiler, **kw)\n"), "C02-R5")
